@@ -207,7 +207,12 @@ func (r *Run) Violation(key, caseID, what string, replay interface{}) {
 	r.mu.Lock()
 	defer r.mu.Unlock()
 	r.violCount++
-	if _, ok := r.viol[key]; ok {
+	if v, ok := r.viol[key]; ok {
+		// keep the smallest case id per key so that the recorded representative does not depend
+		// on goroutine scheduling
+		if caseID < v.Case {
+			*v = Violation{Key: key, What: what, Case: caseID, Replay: replay}
+		}
 		return
 	}
 	if len(r.viol) >= 200 {
